@@ -9,6 +9,7 @@ import (
 	"pegverif/drive"
 	"pegverif/fake"
 	"pegverif/kit"
+	"pegverif/sqlw"
 )
 
 // C06 At-most-once execution of an entry.
@@ -21,7 +22,7 @@ import (
 func init() {
 	core.Register(&core.Prop{
 		ID: "C06", Level: "model_checking",
-		Rule: "chain = funding prefix + window of W blocks, each G(raded) or U(ngraded), entry E of one of 4 kinds (executing transfer, rejected transfer, executing conversion, rejected conversion; 'pending' arises from all-U suffixes) in window block 0, extra copies of E at every placement (same block adjacent/after another entry, each later block); non-trivial = a chain with at least one duplicate that synced to the tip and whose reference chain changed the ledger or recorded a status for E; distinct by (era, kind, pattern, placement)",
+		Rule: "chain = funding prefix + window of W blocks, each G (graded), U (no oracle records), S (priced by staking records only) or W (oracle records present but too few to have winners), entry E of one of 5 kinds (executing transfer, rejected transfer, executing conversion, rejected conversion, conversion whose input address is unfunded when first considered and funded afterwards; 'pending' arises from unpriced suffixes) in window block 0, extra copies of E at every placement (same block adjacent/after another entry, each later block); family (i): every {G,U}^W x every placement of up to k copies; family (ii): every pattern over {G,U,S,W}^4 containing S or W, without copies and with one later copy. Oracles: ledger of the chain with duplicates == ledger of the chain with first occurrences only; and on every chain, after every committed block, a recorded entry whose status is non-zero never changes status again (considered exactly once). Non-trivial = chain that synced and whose reference recorded a status for E; distinct by (era, kind, pattern, placement)",
 		Assumptions: []string{"SQLite atomic commit", "grader library defines winners", "fake Factom node serves well-formed blocks"},
 		Run:         runC06,
 	})
@@ -30,15 +31,19 @@ func init() {
 type c06Kind struct {
 	name string
 	mk   func(b *drive.Builder) fake.Entry
+	// fundLater: the input address (B) receives funds in window block 2, i.e. possibly
+	// after the entry was first considered and rejected
+	fundLater bool
 }
 
 func c06Kinds(e drive.Era) []c06Kind {
 	A, B, C := AddrA, AddrB, AddrC
 	ks := []c06Kind{
-		{"xfer-ok", func(b *drive.Builder) fake.Entry { return b.Tx(KA, kit.Transfer(A, "pUSD", 5e8, B)) }},
-		{"xfer-rej", func(b *drive.Builder) fake.Entry { return b.Tx(KB, kit.Transfer(B, "pUSD", 7e8, C)) }},
-		{"conv-ok", func(b *drive.Builder) fake.Entry { return b.Tx(KA, kit.Conversion(A, "pUSD", 10e8, "pEUR")) }},
-		{"conv-rej", func(b *drive.Builder) fake.Entry { return b.Tx(KA, kit.Conversion(A, "pUSD", 1e17, "pEUR")) }},
+		{"xfer-ok", func(b *drive.Builder) fake.Entry { return b.Tx(KA, kit.Transfer(A, "pUSD", 5e8, B)) }, false},
+		{"xfer-rej", func(b *drive.Builder) fake.Entry { return b.Tx(KB, kit.Transfer(B, "pUSD", 7e8, C)) }, false},
+		{"conv-ok", func(b *drive.Builder) fake.Entry { return b.Tx(KA, kit.Conversion(A, "pUSD", 10e8, "pEUR")) }, false},
+		{"conv-rej", func(b *drive.Builder) fake.Entry { return b.Tx(KA, kit.Conversion(A, "pUSD", 1e17, "pEUR")) }, false},
+		{"conv-unfunded-then-funded", func(b *drive.Builder) fake.Entry { return b.Tx(KB, kit.Conversion(B, "pUSD", 5e8, "pEUR")) }, true},
 	}
 	return ks
 }
@@ -105,17 +110,51 @@ func runC06(c *core.Ctx, r *core.Result) {
 	idx := 0
 	for _, era := range c06Eras() {
 		var w *World
-		for _, kind := range c06Kinds(era) {
-			for pat := 0; pat < 1<<uint(W); pat++ {
-				patStr := ""
-				for j := 0; j < W; j++ {
-					if pat>>uint(j)&1 == 1 {
-						patStr += "G"
-					} else {
-						patStr += "U"
-					}
+		world := func() *World {
+			if w == nil {
+				w = MustWorld(era, FundStd)
+			}
+			return w
+		}
+		// pattern families: (i) every {G,U}^W with every duplicate placement; (ii) every {G,U,S,W}^4
+		// containing S or W, without duplicates and with one later copy ("considered exactly once")
+		type job struct {
+			pattern string
+			places  [][]c06Place
+		}
+		var jobs []job
+		for pat := 0; pat < 1<<uint(W); pat++ {
+			ps := ""
+			for j := 0; j < W; j++ {
+				if pat>>uint(j)&1 == 1 {
+					ps += "G"
+				} else {
+					ps += "U"
 				}
-				groupKey := fmt.Sprintf("%s/%s/%s", era.Name, kind.name, patStr)
+			}
+			jobs = append(jobs, job{ps, c06Placements(W, copies)})
+		}
+		letters := "GUW"
+		if era.V20 == 0 {
+			letters = "GUSW"
+		}
+		var ls []string
+		for _, ch := range letters {
+			ls = append(ls, string(ch))
+		}
+		for _, sq := range seqs(ls, 4) {
+			ps := strings.Join(sq, "")
+			if len(ps) != 4 || !strings.ContainsAny(ps, "SW") {
+				continue
+			}
+			jobs = append(jobs, job{ps, [][]c06Place{{}, {{blk: 3}}, {{blk: 1}}}})
+		}
+		for _, kind := range c06Kinds(era) {
+			for _, jb := range jobs {
+				if strings.ContainsAny(jb.pattern, "SW") && !(kind.name == "conv-ok" || kind.fundLater) {
+					continue
+				}
+				groupKey := fmt.Sprintf("%s/%s/%s", era.Name, kind.name, jb.pattern)
 				idx++
 				if !c.Mine(idx) && c.Only == "" {
 					continue
@@ -125,29 +164,39 @@ func runC06(c *core.Ctx, r *core.Result) {
 				}
 				if c.Expired() {
 					r.Capped("deadline reached before " + groupKey)
+					if w != nil {
+						w.Close()
+					}
 					return
 				}
-				if w == nil {
-					w = MustWorld(era, FundStd)
-					defer w.Close()
-				}
 				// reference: first occurrence only
-				ref, refOut, refExec := c06Run(w, kind, W, pat, nil, r, false)
+				ref, refOut, refExec, refChanged := c06RunPattern(world(), kind, jb.pattern, nil, r, false)
 				if !refOut.Reached {
 					r.Count("reference-chain-"+outcomeClass(refOut), 1)
 					continue
 				}
-				for _, pl := range c06Placements(W, copies) {
+				if refChanged != "" {
+					r.Violate(core.Violation{Key: groupKey + "/", Signature: "C06:" + era.Name + ":" + kind.name + ":status-changed-after-final",
+						Desc: "an entry whose status was already final (executed or rejected) was considered again: " + refChanged + " (chain without any duplicate, pattern " + jb.pattern + ": G graded, U ungraded, S priced by SPRs only, W graded without winners)"})
+				}
+				for _, pl := range jb.places {
 					var ps []string
 					for _, p := range pl {
 						ps = append(ps, p.String())
 					}
 					key := groupKey + "/" + strings.Join(ps, ",")
+					if len(pl) == 0 {
+						// the reference chain itself is the evaluation (considered-once invariant)
+						r.Eval()
+						r.NonTrivial(key)
+						r.Outcome(kind.name + ":no-duplicate:" + refExec)
+						continue
+					}
 					if !c.Want(key) {
 						continue
 					}
 					r.Eval()
-					got, out, _ := c06Run(w, kind, W, pat, pl, r, true)
+					got, out, _, changed := c06RunPattern(world(), kind, jb.pattern, pl, r, true)
 					oc := outcomeClass(out)
 					r.Outcome(kind.name + ":" + oc)
 					if !out.Reached {
@@ -159,6 +208,10 @@ func runC06(c *core.Ctx, r *core.Result) {
 					if refExec != "" {
 						r.NonTrivial(key)
 					}
+					if changed != "" && refChanged == "" {
+						r.Violate(core.Violation{Key: key, Signature: "C06:" + era.Name + ":" + kind.name + ":status-changed-after-final",
+							Desc: "an entry whose status was already final was considered again: " + changed})
+					}
 					if !canon.Equal(ref, got) {
 						r.Violate(core.Violation{Key: key,
 							Signature: fmt.Sprintf("C06:%s:%s:ledger-differs:%s", era.Name, kind.name, strings.Join(canon.TablesDiffering(ref, got), "+")),
@@ -169,20 +222,50 @@ func runC06(c *core.Ctx, r *core.Result) {
 				}
 			}
 		}
+		if w != nil {
+			w.Close()
+		}
 	}
 }
 
 // c06Run runs one chain. placements == nil: reference chain.
 func c06Run(w *World, kind c06Kind, W, pat int, pl []c06Place, res *core.Result, track bool) (canon.Dump, drive.Outcome, string) {
+	ps := ""
+	for j := 0; j < W; j++ {
+		if pat>>uint(j)&1 == 1 {
+			ps += "G"
+		} else {
+			ps += "U"
+		}
+	}
+	d, o, st, _ := c06RunPattern(w, kind, ps, pl, res, track)
+	return d, o, st
+}
+
+// c06RunPattern: pattern letters: G graded with winners, U no OPR records, S priced by SPRs only (2.x),
+// W OPR records present but too few to have winners (graded, no rates). Returns also a description of
+// any entry whose recorded status changed after it had become final.
+func c06RunPattern(w *World, kind c06Kind, pattern string, pl []c06Place, res *core.Result, track bool) (canon.Dump, drive.Outcome, string, string) {
+	W := len(pattern)
 	run := w.Fork()
 	defer run.Close()
 	b := run.B
 	var E fake.Entry
 	for j := 0; j < W; j++ {
 		s := drive.BlockSpec{}
-		if pat>>uint(j)&1 == 1 {
+		switch pattern[j] {
+		case 'G':
 			s.Rates = R1()
 			s.OPRPayTo = kit.AddrStr(KM)
+		case 'S':
+			s.SPR = sprSet(w.Era, b.Next(), R1(), AddrA[:], KA, 25)
+		case 'W':
+			s.Rates = R1()
+			s.NOPR = 3
+			s.OPRPayTo = kit.AddrStr(KM)
+		}
+		if j == 2 && kind.fundLater {
+			s.TX = append(s.TX, b.Tx(KA, kit.Transfer(AddrA, "pUSD", 10e8, AddrB)))
 		}
 		if j == 0 {
 			E = kind.mk(b)
@@ -212,9 +295,28 @@ func c06Run(w *World, kind c06Kind, W, pat int, pl []c06Place, res *core.Result,
 	b.Add(drive.BlockSpec{Rates: R2(), OPRPayTo: kit.AddrStr(KM)})
 	st := NewStateTracker()
 	d := run.Open(nil)
-	if track {
-		d.DB.SetHooks(st.Hooks(d.DBFile(), func() uint32 { return d.Node.Sync.Synced }))
+	final := map[string]int64{}
+	changed := ""
+	hk := st.Hooks(d.DBFile(), func() uint32 { return d.Node.Sync.Synced })
+	inner := hk.After
+	hk.After = func(op *sqlw.Op, err error) {
+		if track {
+			inner(op, err)
+		}
+		if op.Kind != "commit" || err != nil {
+			return
+		}
+		// status finality: once a recorded entry has a non-zero status it never changes
+		for k, ex := range readStatuses(d.DBFile()) {
+			if prev, ok := final[k]; ok && prev != ex && changed == "" {
+				changed = fmt.Sprintf("entry %s… (hash@recorded height): status %d became %d at height %d", k[:12]+k[64:], prev, ex, d.Node.Sync.Synced)
+			}
+			if ex != 0 {
+				final[k] = ex
+			}
+		}
 	}
+	d.DB.SetHooks(hk)
 	out := run.Sync()
 	if track {
 		for h := range st.States {
@@ -235,5 +337,5 @@ func c06Run(w *World, kind c06Kind, W, pat int, pl []c06Place, res *core.Result,
 			status = row[strings.Index(row, "executed="):]
 		}
 	}
-	return dump, out, status
+	return dump, out, status, changed
 }
